@@ -533,8 +533,13 @@ func (r *renderer) site(s *Site) {
 	s.File = r.f
 	t := r.trail(&s.Node) + tag(s.ID)
 	text, after := r.siteText(s)
-	s.Start = r.emit("%s%s", text, t)
-	s.End = s.Start
+	if s.Multi && strings.HasSuffix(text, "{}") {
+		s.Start = r.emit("%s%s", text[:len(text)-1], t)
+		s.End = r.emit("}%s", r.trailLast(&s.Node))
+	} else {
+		s.Start = r.emit("%s%s", text, t)
+		s.End = s.Start
+	}
 	for _, a := range after {
 		r.emit("%s", a)
 	}
